@@ -344,6 +344,10 @@ fn sample_json(ex: &Exchange, meta: &Meta, plan: &ReqPlan, now_ns: u128) -> serd
     })
 }
 
+pub fn gen_knobs_pub(t: &mut Tape, faults: bool) -> StreamKnobs {
+    gen_knobs(t, faults)
+}
+
 fn gen_knobs(t: &mut Tape, faults: bool) -> StreamKnobs {
     let mut k = StreamKnobs {
         pending: t.chance(1, 2),
@@ -676,7 +680,7 @@ fn coalesce(v: &[Range<u64>]) -> Vec<Range<u64>> {
     out
 }
 
-fn check_c02(ctx: &mut Ctx, ex: &Exchange, meta: &Meta, plan: &ReqPlan, sig: u64) -> Result<RunOut, Violation> {
+pub fn check_c02(ctx: &mut Ctx, ex: &Exchange, meta: &Meta, plan: &ReqPlan, sig: u64) -> Result<RunOut, Violation> {
     if plan.method != "GET" {
         return Ok(RunOut { sig, nontrivial: false });
     }
@@ -775,7 +779,7 @@ fn entity_header_multiset(meta: &Meta) -> Vec<(String, Vec<u8>)> {
     v
 }
 
-fn check_c06(ctx: &mut Ctx, ex: &Exchange, meta: &Meta, plan: &ReqPlan, sig: u64) -> Result<RunOut, Violation> {
+pub fn check_c06(ctx: &mut Ctx, ex: &Exchange, meta: &Meta, plan: &ReqPlan, sig: u64) -> Result<RunOut, Violation> {
     if plan.method != "GET" || !ex.is_multipart() {
         // Which answer is chosen (multipart or a complete 200) is C03's business.
         if ex.status == 206 && ex.hdr("content-range").is_some() && ex.hdr("content-type").map(|v| v.to_ascii_lowercase().starts_with(b"multipart/")).unwrap_or(false) {
